@@ -191,6 +191,10 @@ func (e *Encoder) envAt(st *State, blk *ssa.BasicBlock, phiOverride map[string]V
 	}
 	env.old = e.baseEnv
 	env.localsFirst = true
+	env.reached = func(name string) (string, bool) {
+		pc, ok := e.reachedPC[name]
+		return pc, ok
+	}
 	env.lookup = func(name string) (Val, bool) {
 		if v, ok := phiOverride[name]; ok {
 			return v, true
@@ -771,6 +775,7 @@ func (e *Encoder) instr(in ssa.Instruction, st *State, pc string) {
 			e.vals[in] = v
 		}
 		e.assumeWT(v, pc, st)
+		e.nameValue("$assert", e.vals[in], pc) // $assert<k> or $assert<k>_0 (value), $assert<k>_1 (ok)
 	case *ssa.Extract:
 		t := e.val(in.Tuple)
 		if in.Index < len(t.Tuple) {
